@@ -5,6 +5,7 @@ import (
 
 	"github.com/libsv/go-bt/v2"
 	"github.com/libsv/go-bt/v2/bscript"
+	"github.com/libsv/go-bt/v2/bscript/interpreter"
 
 	"verif/internal/mon"
 )
@@ -60,6 +61,14 @@ func ownerEditsDecodedEmpties(c *mon.Ctx) {
 			}
 			for _, o := range tx.Outputs {
 				edit(o.LockingScript)
+			}
+		}
+	})
+	mon.TryQuiet(func() { // the empty script through the interpreter's parser and back
+		p := interpreter.DefaultOpcodeParser{}
+		if ps, err := p.Parse(bscript.NewFromBytes([]byte{})); err == nil {
+			if s, err := p.Unparse(ps); err == nil {
+				edit(s)
 			}
 		}
 	})
